@@ -31,7 +31,9 @@ def ensure_reader():
 
 
 def akey(k):
-    """ASCII str or bytes keys only (the documented hashing rule)."""
+    """ASCII str keys or bytes keys - including arbitrary binary bytes (the documented rule hashes bytes as they are)."""
+    if k % 6 == 3:
+        return bytes([0xFE, k & 0xFF, 0x80, 0xC3, 0x28, (k * 37) & 0xFF])  # not valid UTF-8
     return b"b%d" % k if k % 3 == 0 else f"key-{k}"
 
 
